@@ -36,10 +36,12 @@ META = {
              "granted business lock must be releasable with the returned ID, and a Lock on a held key must end with its caller's context. "
              "The vigil clause is about the vigil the handler takes before its first engine call (flag v: every such BeginVigil is followed by "
              "its deferred CeaseVigil). Vigils taken INSIDE the engine part are below the model's `body` step: Delete re-summons the swamp for "
-             "each remaining key when an earlier key emptied (and closed) the instance and wraps that one DeleteTreasure in a plain "
-             "BeginVigil/CeaseVigil pair (repo 0f74b58). The extractor lists such pairs as observations (evidence: fact_errors); a panic inside "
-             "that one call would leave the vigil (cf. witness plainCease_leaks). Not reproduced: the only panic injection point, summon.enter, "
-             "fires before that vigil is taken, so the injected-panic request on Delete ends with vig=0 as the model says."),
+             "each remaining key when an earlier key emptied (and closed) the instance and takes a vigil for that one DeleteTreasure (repo 0f74b58; "
+             "given back by a defer since 4c6ec17). A BeginVigil there that is NOT followed by its defer is listed by the extractor as an "
+             "observation (evidence: fact_errors) — a panic inside the wrapped call would leave the vigil (witness plainCease_leaks); the only "
+             "panic injection point, summon.enter, fires before such a vigil is taken, so this is not exercised. PatchTreasures' existence test "
+             "before summoning (without CreateIfNotExist, repo 569b5c8) is an early success inside the engine part for the model: its `body` "
+             "prediction admits the per-key KEY_NOT_FOUND answer, the block is checked to be free of panicking constructs."),
     "note": ("Trusted: Lean kernel (propext, Classical.choice, Quot.sound); extract/c26.go (statement shapes it accepts; anything else "
              "makes the handler unrecognised and the verdict undetermined); harness/c26.go (shape abstraction of a request, snapshot "
              "comparison). Assumed and only tested: the engine below the prefix does not panic; repeated message fields never hold nil "
